@@ -22,6 +22,7 @@ type PropConfig struct {
 	DesignRef  string   `json:"design_ref"`
 	ExtraFuncs []string `json:"extra_functions"` // "pkgpath:Key" verified with an empty contract (guard sites are found automatically)
 	Bounded    []BoundedCheck `json:"bounded"`
+	Replay     []BoundedCheck `json:"replay"` // replay harnesses for functions that are fully proved (used only to find a concrete failing input after an obligation fails)
 }
 
 // BoundedCheck: a bounded stand-in for one function the deductive proof does not (fully) reach: the real function is
@@ -324,6 +325,11 @@ func cmdCheck(args []string) int {
 	sort.Strings(missing)
 
 	if *verbose {
+		for _, r := range results {
+			for _, t := range r.Trusted {
+				fmt.Printf("  trusted[%s]: %s\n", r.Key, t)
+			}
+		}
 		for _, o := range obls {
 			fmt.Printf("  %-8s %-10s %6dms %s  [%s]\n", o.Result, o.Solver, o.Ms, o.Name, o.Pos)
 		}
@@ -433,13 +439,33 @@ func cmdCheck(args []string) int {
 				"solver_result": o.Result, "solver": o.Solver, "solver_output": truncate(o.Output, 20000), "previously_proved": expected[o.Name]}
 			confirmed := false
 			if o.Result == "sat" {
-				model := parseModel(o)
-				rep["model"] = model
-				ok, log := tryReplay(eng, o, model, id)
-				rep["replay_log"] = log
-				confirmed = ok
-				rep["replay_confirmed"] = ok
+				rep["model"] = parseModel(o)
 			}
+			// replay against the real code: the function's harness (if any) searches its domain for a failing input
+			for _, b := range append(append([]BoundedCheck{}, cfg.Bounded...), cfg.Replay...) {
+				if b.Function != o.Func {
+					continue
+				}
+				mj, _ := json.Marshal(rep["model"])
+				_, log := runHarness(prog.RepoDir, b.Pkg, b.Harness, b.Test, map[string]string{"TVC_TIER": *tier, "TVC_MODEL": string(mj)})
+				var fails []string
+				for _, l := range strings.Split(log, "\n") {
+					if i := strings.Index(l, "TVC-FAIL "); i >= 0 {
+						fails = append(fails, strings.TrimSpace(l[i+9:]))
+					}
+				}
+				rep["replay_harness"] = b.Harness
+				if len(fails) > 0 {
+					confirmed = true
+					if len(fails) > 5 {
+						fails = fails[:5]
+					}
+					rep["failing_inputs_on_real_code"] = fails
+				} else {
+					rep["replay_log"] = truncate(log, 2000)
+				}
+			}
+			rep["replay_confirmed"] = confirmed
 			b, _ := json.MarshalIndent(rep, "", " ")
 			os.WriteFile(path, b, 0o644)
 			suffix := ""
